@@ -61,11 +61,8 @@ def runJob (cfg : Cfg) (s : St) (j : Nat) : Nat → Bool → Option St
     | none => if first then none else some s
     | some s' => if isPark (s'.job j).kind (s'.job j).pc then some s' else runJob cfg s' j fuel false
 
-def sortPairs (l : List (Nat × List Nat)) : List (Nat × List Nat) :=
-  (l.toArray.qsort (fun a b => a.1 < b.1)).toList
-
 def showRead (r : List (Nat × List Nat)) : String :=
-  "ok" ++ String.join ((sortPairs r).map (fun p => s!" {p.1}:{commaNat p.2}"))
+  "ok toks=" ++ commaNat (sortNat (r.flatMap (·.2)))
 
 /-- FindReaders / Load over the files covering k, in the version's order, stopping at the first
 failed open (files before it stay retained exactly as the loop left them) -/
